@@ -4,11 +4,10 @@ from lib.vlib import cq_list
 ID = "C28"
 HARNESS_PKG = "c28"
 HARNESS_RUNNER = "c28"
-COQ_TARGETS = ["theories/C28/Corr.vo"]
-COQ_CORR_MODULE = "C28.Model C28.Spec C28.Corr"
-COQ_CASE_TYPE = "C28.Corr.case"
-COQ_CHECK = "C28.Corr.check_case"
-COQ_MODEL_OBS = "(fun c => C28.Corr.model_obs (fst c))"
+COQ_TARGETS = ["theories/C28/Corr2.vo"]
+COQ_CORR_MODULE = "C28.Model C28.Spec C28.Corr C28.Server C28.Corr2"
+COQ_CASE_TYPE = "C28.Corr2.acase"
+COQ_CHECK = "C28.Corr2.check_any"
 COQ_SHARD = 400
 DESIGN_REF = "§5 C28"
 TECHNIQUE = ("Coq proof over every sequence of atomic tracker steps (any sessions, any branches) of a model of SequenceTracker.Next "
@@ -16,17 +15,25 @@ TECHNIQUE = ("Coq proof over every sequence of atomic tracker steps (any session
 LEVEL_TEXT = ("Proof (F/M, partial overall): the tracker is one counter per table for the whole server; for every schedule of atomic Next steps "
               "(generated or explicit value, by any session on any branch, interleaved with commits / rollbacks / branch switches) Coq proves the generated "
               "values strictly increasing, pairwise distinct, larger than every explicit value inserted before them and never reused after a rollback. "
-              "Partial: atomicity of one Next (the per-table mutex mm.Lock) is the Go runtime's job; it is exercised by the goroutine-parallel phase.")
+              "Partial: atomicity of one Next (the per-table mutex mm.Lock) is the Go runtime's job; it is exercised by the goroutine-parallel phase. "
+              "Server model (Server.v): several tables with independent sequences, transactions on branches (a committed insert stores id+1 in the branch's table, "
+              "a rolled-back one nothing), restart = tracker initialised to the max over all branches' stored counters, ALTER TABLE .. AUTO_INCREMENT as implemented "
+              "(raise; lowering is a no-op unless n exceeds every id committed on the branch, then the tracker is re-seated to max(n, other branches' counters)); "
+              "without restart / ALTER generated values stay strictly increasing per table across transactions, rollbacks and branch switches.")
 LEVEL_NOTE = ("Trusted: Coq kernel, Go harness + Python glue. Modelled, not verified: the per-table mutex (each Next is an atomic step), go-mysql-server's "
               "auto-increment plumbing (which value reaches Next), column type bounds (values stay far below 2^31), ALTER TABLE AUTO_INCREMENT (Set/deepSet) "
               "and tracker initialisation from existing roots (tables are created empty in the cases).")
-THEOREMS = ["next_unique", "next_increasing", "explicit_advances", "later_exceeds_earlier", "oracle_accepts_model"]
+THEOREMS = ["next_unique", "next_increasing", "explicit_advances", "later_exceeds_earlier", "oracle_accepts_model",
+            "init_is_max_over_branches", "alter_lower_is_noop_or_clamped", "next_increasing_tables", "tables_independent"]
 RULE = ("2-5 sessions on 1-3 branches of one database (some autocommit), 6-30 steps: generated insert / explicit insert (fresh value: ahead of the "
         "sequence or in a gap left by an earlier jump) / COMMIT / ROLLBACK / switch branch; then one goroutine per session doing 2-6 generated inserts "
         "concurrently; non-trivial = generated inserts on at least two branches; distinct by content")
-ASSUMPTIONS = ["explicit values are fresh (never equal to an id already present on any branch), so no insert fails with a duplicate key",
+ASSUMPTIONS = ["server cases: ALTER TABLE .. AUTO_INCREMENT is issued only when no session has an open transaction (observed quirk: a lowering ALTER looks only at rows "
+               "visible to the altering session, so with ids held by other sessions' open transactions it re-seats the tracker below them and those ids are handed out again)",
+               "explicit values are fresh (never equal to an id already present on any branch), so no insert fails with a duplicate key",
                "each SequenceTracker.Next call is atomic (per-table mutex)"]
-REQUIRED_TAGS = ["multi-branch", "explicit-ahead", "explicit-gap", "rollback", "switch", "parallel", "autocommit"]
+REQUIRED_TAGS = ["multi-branch", "explicit-ahead", "explicit-gap", "rollback", "switch", "parallel", "autocommit",
+                 "server-case", "restart", "restart-after-rollback", "alter-raise", "alter-lower-noop", "alter-lower-clamped", "two-tables"]
 
 K_GEN, K_EXPL, K_COMMIT, K_ROLLBACK, K_SWITCH = range(5)
 
@@ -65,15 +72,129 @@ def gen_one(rng):
     return {"nbranch": nb, "sess": sess, "autos": autos, "steps": steps, "par": par}
 
 
+def gen_server(rng):
+    nb = rng.choice([1, 2, 2, 3])
+    ns = rng.randint(2, 4)
+    sess = [rng.randrange(nb) for _ in range(ns)]
+    autos = [s for s in range(ns) if rng.random() < 0.3]
+    steps = []
+    cur = {0: 1, 1: 1}                      # generator's own guess of the tracker, only to pick interesting values
+    used = {0: set(), 1: set()}
+    for _ in range(rng.randint(8, 26)):
+        s = rng.randrange(ns)
+        t = 0 if rng.random() < 0.7 else 1
+        r = rng.random()
+        if r < 0.42:
+            steps.append([s, 0, 0, t]); used[t].add(cur[t]); cur[t] += 1
+        elif r < 0.55:
+            v = cur[t] + rng.randint(0, 5)
+            while v in used[t]:
+                v += 1
+            steps.append([s, 1, v, t]); used[t].add(v); cur[t] = max(cur[t], v + 1)
+        elif r < 0.68:
+            steps.append([s, 2, 0, 0])
+        elif r < 0.76:
+            steps.append([s, 3, 0, 0])
+        elif r < 0.82:
+            steps.append([s, 4, rng.randrange(nb), 0])
+        elif r < 0.90:
+            # everybody finishes, then the server restarts
+            for x in range(ns):
+                steps.append([x, rng.choice([2, 2, 3]), 0, 0])
+            steps.append([0, 5, 0, 0])
+        else:
+            # ALTER re-seats the sequence using only what the altering session can see: every session finishes first
+            for x in range(ns):
+                steps.append([x, rng.choice([2, 2, 3]), 0, 0])
+            n = rng.choice([cur[t] + rng.randint(1, 8), max(1, cur[t] - rng.randint(0, 6)), rng.randint(1, 4)])
+            steps.append([s, 6, n, t]); cur[t] = max(cur[t], n)
+    return {"mode": "server", "nbranch": nb, "sess": sess, "autos": autos, "steps": steps}
+
+
+FIXED_SERVER = [
+    # branch b1 holds the larger ids; a rolled-back insert is forgotten by a restart; the tracker restarts at max over branches
+    {"mode": "server", "nbranch": 2, "sess": [0, 1], "autos": [0, 1],
+     "steps": [[0, 0, 0, 0], [0, 0, 0, 0], [0, 0, 0, 1], [1, 0, 0, 0], [1, 1, 20, 0], [1, 0, 0, 0], [0, 5, 0, 0], [0, 0, 0, 0], [0, 0, 0, 1],
+               [0, 6, 50, 0], [0, 0, 0, 0], [0, 6, 10, 0], [0, 0, 0, 0], [1, 0, 0, 0]]},
+    {"mode": "server", "nbranch": 2, "sess": [0, 1], "autos": [],
+     "steps": [[0, 0, 0, 0], [0, 2, 0, 0], [1, 0, 0, 0], [1, 1, 9, 0], [1, 3, 0, 0], [1, 0, 0, 0], [1, 2, 0, 0], [0, 5, 0, 0], [0, 0, 0, 0], [1, 0, 0, 0],
+               [0, 2, 0, 0], [1, 2, 0, 0], [0, 6, 3, 0], [0, 0, 0, 0], [0, 2, 0, 0]]},
+]
+
+
 def gen_cases(rng, tier):
-    n = 120 if tier == "quick" else 4000
+    n = 100 if tier == "quick" else 4000
     cases = [
         {"nbranch": 3, "sess": [0, 1, 2], "autos": [], "steps": [[0, 0, 0], [1, 0, 0], [2, 0, 0], [0, 1, 10], [1, 0, 0], [2, 3, 0], [2, 0, 0], [1, 1, 5], [0, 0, 0], [0, 2, 0], [1, 4, 0], [1, 0, 0], [2, 1, 30], [2, 3, 0], [0, 0, 0]], "par": [5, 5, 5]},
         {"nbranch": 2, "sess": [0, 1], "autos": [0], "steps": [[0, 0, 0], [1, 0, 0], [0, 0, 0], [1, 3, 0], [1, 0, 0]], "par": [3, 3]},
     ]
     while len(cases) < n:
         cases.append(gen_one(rng))
+    cases += [dict(c) for c in FIXED_SERVER]
+    for _ in range(120 if tier == "quick" else 4000):
+        cases.append(gen_server(rng))
     return cases
+
+
+def _sop(st):
+    k, x, t = st[1], st[2], st[3]
+    return {0: "SGen %d" % t, 1: "SExpl %d %d" % (t, x), 2: "SCommitT", 3: "SRollbackT", 4: "SSwitch %d" % x, 5: "SRestart", 6: "SAlter %d %d" % (t, x)}[k]
+
+
+def coq_case_server(case, out):
+    inp = "{| si_branches := %s; si_tables := [0; 1]; si_autos := %s; si_sbr := %s; si_sched := %s |}" % (
+        cq_list(str(b) for b in range(case["nbranch"])), cq_list(str(a) for a in case["autos"]),
+        cq_list("(%d, %d)" % (i, b) for i, b in enumerate(case["sess"])),
+        cq_list("(%d, %s)" % (st[0], _sop(st)) for st in case["steps"]))
+    o = out.get("obs")
+    if o is None or out.get("err") or out.get("panic"):
+        return "D2 (%s, {| so_ids := []; so_ok := false |})" % inp
+    ok = all(v != -2 for v in o["ids"])
+    return "D2 (%s, {| so_ids := %s; so_ok := %s |})" % (inp, cq_list(_oN(v) for v in o["ids"]), "true" if ok else "false")
+
+
+def classify_server(case, out):
+    o = out.get("obs")
+    if o is None:
+        return ["panic", "server-case"]
+    t = {"server-case", "nontrivial"}
+    last = {0: 0, 1: 0}
+    rolled = False
+    tabs = set()
+    for st, v in zip(case["steps"], o["ids"]):
+        k = st[1]
+        if v == -2:
+            t.add("insert-error")
+        if k in (0, 1):
+            tabs.add(st[3])
+            if v > 0:
+                last[st[3]] = max(last[st[3]], v)
+        if k == 3:
+            rolled = True
+        if k == 5:
+            t.add("restart")
+            if rolled:
+                t.add("restart-after-rollback")
+        if k == 6:
+            t.add("alter")
+    # classify alters by what the next generated value on that table shows
+    steps = case["steps"]
+    for i, st in enumerate(steps):
+        if st[1] != 6:
+            continue
+        prev = max([v for s2, v in zip(steps[:i], o["ids"][:i]) if s2[1] in (0, 1) and s2[3] == st[3] and v > 0] or [0])
+        nxt = next((v for s2, v in zip(steps[i + 1:], o["ids"][i + 1:]) if s2[1] == 0 and s2[3] == st[3]), None)
+        if nxt is None:
+            continue
+        if st[2] > prev and nxt >= st[2]:
+            t.add("alter-raise")
+        elif nxt <= prev:
+            t.add("alter-lower-clamped")
+        else:
+            t.add("alter-lower-noop")
+    if len(tabs) == 2:
+        t.add("two-tables")
+    return sorted(t)
 
 
 def _branches(case):
@@ -96,6 +217,12 @@ def _oN(v):
 
 
 def coq_case(case, out):
+    if case.get("mode") == "server":
+        return coq_case_server(case, out)
+    return "D1 " + coq_case_plain(case, out)
+
+
+def coq_case_plain(case, out):
     br = _branches(case)
     sched = cq_list("(%d, %d, %s)" % (st[0], br[i], _op(st[1], st[2])) for i, st in enumerate(case["steps"]))
     inp = "{| i_sched := %s; i_par := %d |}" % (sched, sum(case["par"][:len(case["sess"])]))
@@ -109,6 +236,8 @@ def coq_case(case, out):
 
 
 def classify(case, out):
+    if case.get("mode") == "server":
+        return classify_server(case, out)
     t = []
     br = _branches(case)
     gen_br = set(br[i] for i, st in enumerate(case["steps"]) if st[1] == K_GEN)
@@ -148,12 +277,15 @@ def nontrivial(case, out):
 
 def shrink_candidates(case):
     st = case["steps"]
-    for i in range(len(st)):
+    for i in range(min(len(st), 30)):
         c = dict(case); c["steps"] = st[:i] + st[i + 1:]
         yield c
-    c = dict(case); c["par"] = [0] * len(case["par"])
-    yield c
+    if case.get("mode") != "server":
+        c = dict(case); c["par"] = [0] * len(case["par"])
+        yield c
 
 
 def neighbours(case, rng):
+    if case.get("mode") == "server":
+        return [gen_server(rng) for _ in range(40)]
     return [gen_one(rng) for _ in range(40)]
